@@ -43,6 +43,16 @@ func oneLine(s string) string {
 	return s
 }
 
+// clipReason shortens the reason a provider cannot be included but keeps the marker the comparisons look for (the
+// provider's printed signature comes first and can be long)
+func clipReason(s string) string {
+	c := oneLine(s)
+	if strings.Contains(s, "dependencies not met") && !strings.Contains(c, "dependencies not met") {
+		c += " ... dependencies not met"
+	}
+	return c
+}
+
 // errClass maps a Bind error to a small enum keyed on the producing site.
 func errClass(err error) string {
 	if err == nil {
@@ -158,7 +168,7 @@ func (r *caseRun) dumpLines(d nject.VerifDump) {
 			fmtCodes(codesOf(f.Flows[3])), fmtCodes(codesOf(f.Flows[4])),
 			fmtRmap(r, f.DownRmap), fmtRmap(r, f.UpRmap), fmtRmap(r, f.BypassRmap),
 			fmtCodes(sortedCodes(f.MustZeroSkipped)), fmtCodes(sortedCodes(f.MustZeroInner)), ei, fl,
-			strings.ReplaceAll(orDash(f.Origin), " ", "_"), f.Index, strings.ReplaceAll(orDash(oneLine(f.WhyIncluded+"|"+f.CannotInclude)), " ", "_"))
+			strings.ReplaceAll(orDash(f.Origin), " ", "_"), f.Index, strings.ReplaceAll(orDash(oneLine(f.WhyIncluded)+"|"+clipReason(f.CannotInclude)), " ", "_"))
 	}
 	if d.Stage == "S7" {
 		r.logf("dv %s", fmtVmap(d.DownVmap))
